@@ -66,6 +66,21 @@ def _raised_class(ctx, f, r):
                 any(isinstance(t, ast.Name) and t.id == name for t in n.targets)]
         if defs and all(isinstance(d.value, ast.Attribute) and d.value.attr == 'isInconsistent' for d in defs):
             return 'captured', 'value of .isInconsistent (a captured library error, see A3.incons)'
+    # `raise self._helper(...)` / `raise _helper(...)`: a factory all of whose returns construct a library error
+    if isinstance(e, ast.Call) and not isinstance(c, ClassInfo):
+        h = None
+        if isinstance(target, ast.Attribute) and isinstance(target.value, ast.Name) and target.value.id in ('self', 'cls') and f.cls is not None:
+            h = f.cls.method(target.attr)
+        elif isinstance(target, ast.Name):
+            h = ctx.prog.functions.get(f.module.name + '.' + target.id)
+        if h is not None and h is not f:
+            rets = [x for x in walk_own(h.node) if isinstance(x, ast.Return)]
+            kinds = []
+            for x in rets:
+                hc = ctx.prog.resolve_expr(h.module, x.value.func) if isinstance(x.value, ast.Call) else None
+                kinds.append(hc.short if isinstance(hc, ClassInfo) and hc.subclass_of_name(PYERR) else None)
+            if rets and all(kinds) and not any(isinstance(x, (ast.Yield, ast.YieldFrom)) for x in walk_own(h.node)):
+                return 'library', '%s (built by %s)' % ('/'.join(sorted(set(kinds))), h.short)
     if isinstance(c, External) or c is None:
         nm = norm(target)
         return 'builtin', nm
